@@ -4,9 +4,10 @@
    (The calibration-file / YAML half is Properties_C09cal.v.)
 
    The models are structurally recursive functions of the input bytes (no fuel), so termination is by
-   construction; the theorems say what the answer looks like.  Not modelled: allocation failure (ENOMEM),
-   the message texts, the line counter; memory safety other than the scanner's text buffer is checked by the
-   sanitizers in checks/c09_data.py. *)
+   construction; the theorems say what the answer looks like.  The first part (byte-level models) does not model
+   allocation failure, the message texts or the line counter.  The later parts add the pointer-level models of the
+   parsers' own buffers with their allocation failures (Files/TsMem.v, TsMemNpd.v), the calls made on the destination
+   object (Files/LoadFail.v) and the saver's acceptance of a loaded object (Files/LoadFailSave.v). *)
 Require Import List NArith ZArith Bool.
 Import ListNotations.
 Require Import LV.Files.TsTok LV.Files.TsTokProofs LV.Files.TsParse LV.Files.TsParseBasics LV.Files.TsTotal.
@@ -210,27 +211,50 @@ Theorem ts_dest_usable : forall (V : Type) (vzero vdef vany : V) name_ft bytes k
 Proof. exact ts_dest_usable_lemma. Qed.
 Print Assumptions ts_dest_usable.
 
-(* npd_dest_usable: the same for the NPD loader, which never faults, provided every precision it stored directly
-   (vdi_fprecision, vdi_dprecision: not through the setters) is >= 1 *)
+(* npd_dest_usable: the same for the NPD loader, which never faults; since fix DB91 every precision it stores directly
+   (vdi_fprecision, vdi_dprecision: not through the setters) is >= 1 (npd_precisions_ok), so there is no proviso *)
 Theorem npd_dest_usable : forall (V : Type) (vzero vdef vany : V) name_ft bytes k d,
   DataProofs.Inv V vzero vdef d ->
-  match mem_load_npd NFixed bytes (start k) with
-  | Alloc.Ok ((_, rep), _) =>
-      forallb prec_ok (nr_calls rep) = true ->
-      exists d', npd_dest V vzero vdef vany name_ft bytes k d = Some d' /\ DataProofs.Inv V vzero vdef d'
-  | Fault _ => False
-  end.
+  exists d', npd_dest V vzero vdef vany name_ft bytes k d = Some d' /\ DataProofs.Inv V vzero vdef d'.
 Proof. exact npd_dest_usable_lemma. Qed.
 Print Assumptions npd_dest_usable.
 
-(* ... and without that proviso it is false: '#:fprecision 0' loads and leaves precision 0, a value
-   vnadata_set_fprecision refuses and the invariant excludes (the saver clamps it; nothing else reads it) *)
-Theorem npd_dest_precision_refuted :
-  (exists o, load_npd prec0_bytes = NOk o) /\
-  exists d', (npd_dest unit tt tt tt 3 prec0_bytes None harness_dest = Some d') /\
-             (DataModel.fprec unit d' = 0%Z) /\ (~ DataProofs.Inv unit tt tt d').
-Proof. exact npd_dest_precision_refuted_lemma. Qed.
-Print Assumptions npd_dest_precision_refuted.
+Theorem npd_precisions_ok : forall bytes k r s',
+  mem_load_npd NFixed bytes (start k) = Alloc.Ok (r, s') -> forallb prec_ok (nr_calls (snd r)) = true.
+Proof. exact npd_precisions_ok_lemma. Qed.
+Print Assumptions npd_precisions_ok.
+
+(* before fix DB91: '#:fprecision 0' was accepted (hline_step_asfound) and stored, a value vnadata_set_fprecision refuses
+   and the invariant excludes - an out-of-place vnadata_convert of such an object failed in its option copy after wiping
+   its destination (review R2, C05 finding 1); since the fix the file is refused *)
+Theorem npd_precision_asfound_refuted :
+  (exists h', hline_step_asfound nh0 NKFprecision (hd [] (npd_lines prec0_bytes)) = inr h' /\ n_fprec h' = Some 0%Z) /\
+  (~ DataProofs.Inv unit tt tt (ndop_apply unit tt tt tt harness_dest (NFprec 0))) /\
+  load_npd prec0_bytes = NError NEBADMSG.
+Proof. exact npd_precision_asfound_refuted_lemma. Qed.
+Print Assumptions npd_precision_asfound_refuted.
+
+(* NOTE on what the two _usable theorems give: they hold for the call list the model RECORDS because they hold for every
+   call list (a call the container refuses leaves the model state unchanged).  That the recorded calls are all ACCEPTED -
+   indices in range, vectors of one entry per port, i.e. that the unchecked stores of the loaders are in range - is not a
+   theorem yet: LoadFail.calls_accepted decides it for a given list and the tie evaluates it on the recorded list of every
+   run (tie:destination_after_load, class destination-call-refused).  Two instances: *)
+Example ts_calls_accepted_example :
+  match mem_load_ts mid_bytes (start None) with
+  | Alloc.Ok ((_, rep), _) => ts_accepted 2 (r_calls rep) = true
+  | Fault _ => False
+  end.
+Proof. vm_compute. reflexivity. Qed.
+
+(* dest_shape_last_call: what IS left after a failed load: type, rows, columns and number of frequencies are those left by
+   the last call that can change the shape (vnadata_init, vnadata_resize, vnadata_add_frequency); with ts_dest_usable /
+   npd_dest_usable (every cell, frequency and impedance inside those dimensions is readable: c15_no_fault) this is the
+   reading of "no partial object" adopted in docs/design_C09.md: the destination stays a valid object, it is NOT restored *)
+Theorem dest_shape_last_call : forall (V : Type) (vzero vdef vany : V) l1 o l2 d,
+  forallb (fun c => negb (shape_call c)) l2 = true ->
+  dims V (run_calls V vzero vdef vany d (l1 ++ o :: l2)) = dims V (dop_apply V vzero vdef vany (run_calls V vzero vdef vany d l1) o).
+Proof. exact dest_shape_last_call_lemma. Qed.
+Print Assumptions dest_shape_last_call.
 
 (* the destination of the memory harness (a 3 x 3 Z object with 2 frequencies) satisfies the invariant: the premise of the
    two theorems above is met by the object the tie runs on *)
@@ -244,52 +268,53 @@ Theorem dest_unchanged_before_init : forall (V : Type) (vzero vdef vany : V) l d
 Proof. exact run_meta_same. Qed.
 Print Assumptions dest_unchanged_before_init.
 
-(* ts_cksave_iff: for every object the Touchstone loader returns, with >= 1 port and >= 1 frequency, and the format the
-   loader left behind: vnadata_cksave accepts exactly when every reference impedance passes the saver's test
-   (not "creal <= 0": the loader's own test) and - for a version-1 object under a strict .sNp name (promote = false) -
-   there are at most four ports and one common impedance; under a .ts name (promote = true) nothing else is asked *)
-Theorem ts_cksave_iff : forall bytes o promote,
-  load_ts bytes = TsParse.Ok o -> (1 <= TsParse.o_ports o)%nat -> TsParse.o_freqs o <> [] ->
-  cksave (ts_sobj promote o) =
-  z0_pos (TsParse.o_z0 o) &&
-  (TsParse.o_v2 o || ((Nat.leb (TsParse.o_ports o) 4 || promote) && (z0_equal (TsParse.o_z0 o) || promote))).
-Proof. exact ts_cksave_iff_lemma. Qed.
-Print Assumptions ts_cksave_iff.
-
-(* load_ts_z0_pos: every reference impedance of an object the Touchstone loader returns has failed the loader's test
-   "x <= 0" (R value, [Reference] values; a NaN passes, as in the C code), which is also the saver's test *)
+(* load_ts_z0_gt0 / load_ts_z0_pos: every reference impedance of an object the Touchstone loader returns has passed the
+   loader's test "x > 0.0" (R value, [Reference] values; fix DB93: a NaN is refused), hence also the saver's test *)
+Theorem load_ts_z0_gt0 : forall bytes o, load_ts bytes = TsParse.Ok o -> z0_gt0 (TsParse.o_z0 o) = true.
+Proof. exact load_ts_z0_gt0_lemma. Qed.
+Print Assumptions load_ts_z0_gt0.
 Theorem load_ts_z0_pos : forall bytes o, load_ts bytes = TsParse.Ok o -> z0_pos (TsParse.o_z0 o) = true.
 Proof. exact load_ts_z0_pos_lemma. Qed.
 Print Assumptions load_ts_z0_pos.
 
-(* ts_cksave_ts_name: hence every object the Touchstone loader returns, with >= 1 port and >= 1 frequency, in the format
-   the loader left behind, is accepted by vnadata_cksave under a name ending in .ts *)
+(* ts_cksave_by_name: for every object the Touchstone loader returns, with >= 1 port and >= 1 frequency, in the format the
+   loader left behind, and for every class of save name (the saver derives the file type from the name: .ts keeps a
+   version-1 object version 1 but allows the promotion, .sNp forces Touchstone 1 also for a version-2 object, .npd forces
+   NPD, any other name keeps the object's file type): what vnadata_cksave answers *)
+Theorem ts_cksave_by_name : forall bytes o nc,
+  load_ts bytes = TsParse.Ok o -> (1 <= TsParse.o_ports o)%nat -> TsParse.o_freqs o <> [] ->
+  cksave (ts_sobj nc o) =
+  match save_filetype nc (TsParse.o_v2 o) with
+  | (TS2, _) => true
+  | (TS1, promote) => (Nat.leb (TsParse.o_ports o) 4 || promote) && (z0_equal (TsParse.o_z0 o) || promote)
+  | (NPD, _) => negb (npd_refuses o)
+  end.
+Proof. exact ts_cksave_by_name_lemma. Qed.
+Print Assumptions ts_cksave_by_name.
+
+(* ts_cksave_ts_name: in particular every loaded object is accepted under a name ending in .ts *)
 Theorem ts_cksave_ts_name : forall bytes o,
-  load_ts bytes = TsParse.Ok o -> (1 <= TsParse.o_ports o)%nat -> TsParse.o_freqs o <> [] -> cksave (ts_sobj true o) = true.
+  load_ts bytes = TsParse.Ok o -> (1 <= TsParse.o_ports o)%nat -> TsParse.o_freqs o <> [] -> cksave (ts_sobj NameTs o) = true.
 Proof. exact ts_cksave_ts_name_lemma. Qed.
 Print Assumptions ts_cksave_ts_name.
 
-(* ts_cksave_exact: and under any name the acceptance is exactly: version 2, or (at most four ports or .ts) and (one common
-   impedance - as C compares doubles - or .ts) *)
-Theorem ts_cksave_exact : forall bytes o promote,
-  load_ts bytes = TsParse.Ok o -> (1 <= TsParse.o_ports o)%nat -> TsParse.o_freqs o <> [] ->
-  cksave (ts_sobj promote o) =
-  (TsParse.o_v2 o || ((Nat.leb (TsParse.o_ports o) 4 || promote) && (z0_equal (TsParse.o_z0 o) || promote))).
-Proof. exact ts_cksave_exact_lemma. Qed.
-Print Assumptions ts_cksave_exact.
+(* "R nan" is refused since fix DB93 (before: loaded, and the object was refused under x.s2p because NaN != NaN) *)
+Theorem ts_r_nan_refused : load_ts rnan_bytes = Error EBADMSG.
+Proof. exact ts_r_nan_refused_lemma. Qed.
+Print Assumptions ts_r_nan_refused.
 
-(* strict Touchstone 1 names: "R nan" with two ports (NaN != NaN) and a five-port version-1 file load but are refused
-   under x.s2p / x.s5p; both are accepted under x.ts *)
-Theorem ts_strict_name_rnan_refuted :
-  exists o, load_ts rnan_bytes = TsParse.Ok o /\ TsParse.o_ports o = 2%nat /\ length (TsParse.o_freqs o) = 1%nat /\
-            cksave (ts_sobj false o) = false /\ cksave (ts_sobj true o) = true.
-Proof. exact ts_strict_name_rnan_refuted_lemma. Qed.
-Print Assumptions ts_strict_name_rnan_refuted.
+(* strict Touchstone 1 names: a five-port version-1 file, and a five-port VERSION-2 file (a .sNp name resets the file type
+   to Touchstone 1), load but are refused under x.s5p; both are accepted under x.ts *)
 Theorem ts_strict_name_five_ports_refuted :
   exists o, load_ts five_bytes = TsParse.Ok o /\ TsParse.o_ports o = 5%nat /\ length (TsParse.o_freqs o) = 1%nat /\
-            cksave (ts_sobj false o) = false /\ cksave (ts_sobj true o) = true.
+            cksave (ts_sobj NameSnp o) = false /\ cksave (ts_sobj NameTs o) = true.
 Proof. exact ts_strict_name_five_ports_refuted_lemma. Qed.
 Print Assumptions ts_strict_name_five_ports_refuted.
+Theorem ts_v2_five_ports_snp_name_refuted :
+  exists o, load_ts five_v2_bytes = TsParse.Ok o /\ TsParse.o_v2 o = true /\ TsParse.o_ports o = 5%nat /\
+            cksave (ts_sobj NameSnp o) = false /\ cksave (ts_sobj NameTs o) = true /\ cksave (ts_sobj NameOther o) = true.
+Proof. exact ts_v2_five_ports_snp_name_refuted_lemma. Qed.
+Print Assumptions ts_v2_five_ports_snp_name_refuted.
 
 (* npd_cksave_default: every object the NPD loader returns, with >= 1 port and >= 1 frequency, is accepted for the NPD
    file type with the default format; the format the loader left behind can be refused ('#:parameters ZdB') *)
